@@ -315,7 +315,18 @@ impl Borrow<Val> for AsInterned<TId> {
 }
 
 fn intern_iteration(pool: &[Vec<u8>], prefill: &[usize], threads: &[Vec<IOp>]) {
-    let table: *mut InternTable<TId, Val> = Box::into_raw(Box::new(InternTable::new()));
+    // When the pool's first value is the empty byte string the table is created like the
+    // repository's string tables: `with_zero`, the empty value pre-interned as index 0 and
+    // seeded into the shard set on first use (which then races with the first interns).
+    let with_zero = pool[0].is_empty();
+    let table: *mut InternTable<TId, Val> = if with_zero {
+        // a `Zero` may back at most one arena, and an arena that uses it must never be dropped
+        // (its first bucket is the `Zero`'s storage): both are leaked per schedule
+        let zero: &'static intern::Zero<Val> = Box::leak(Box::new(intern::Zero::new(Val(Vec::new()))));
+        Box::into_raw(Box::new(InternTable::with_zero(zero)))
+    } else {
+        Box::into_raw(Box::new(InternTable::new()))
+    };
     TABLE.with(|t| t.set(table));
     let pool: Arc<Vec<Val>> = Arc::new(pool.iter().map(|b| Val(b.clone())).collect());
     let published: Arc<shuttle::sync::Mutex<Vec<(usize, TId)>>> = Arc::new(shuttle::sync::Mutex::new(Vec::new()));
@@ -394,6 +405,18 @@ fn intern_iteration(pool: &[Vec<u8>], prefill: &[usize], threads: &[Vec<IOp>]) {
         }
         assert!(id.get() == &pool[*v], "C05 lookup: after join id of #{v} looks up {:?}", id.get());
     }
+    if with_zero {
+        // the pre-interned empty value keeps its id, whoever interns it and whenever
+        let zero_id = TId::wrap(intern::Zero::zero());
+        if let Some(ids) = by_value.get(&0) {
+            assert!(ids.contains(&zero_id) && ids.len() == 1, "C05 bijection: the pre-interned empty value was interned as {ids:?}");
+        }
+        assert!(zero_id.get() == &pool[0], "C05 lookup: the zero id looks up {:?}", zero_id.get());
+        let got = TId::get_interned(&pool[0]);
+        assert!(got == Some(zero_id), "C05 bijection: get_interned(empty) says {got:?}");
+        by_value.entry(0).or_default().insert(zero_id);
+        seen_ids.insert(zero_id, 0);
+    }
     let distinct = by_value.len();
     let indices: BTreeSet<u32> = seen_ids.keys().map(|id| id.index()).collect();
     let want: BTreeSet<u32> = (0..distinct as u32).collect();
@@ -405,8 +428,10 @@ fn intern_iteration(pool: &[Vec<u8>], prefill: &[usize], threads: &[Vec<IOp>]) {
     }
     drop(published);
     TABLE.with(|t| t.set(std::ptr::null()));
-    // SAFETY: all simulated threads are joined; nothing refers to the table any more
-    drop(unsafe { Box::from_raw(table) });
+    if !with_zero {
+        // SAFETY: all simulated threads are joined; nothing refers to the table any more
+        drop(unsafe { Box::from_raw(table) });
+    }
 }
 
 fn iteration(work: &Work) {
